@@ -36,11 +36,13 @@ import OFV.Lemmas.Walk3
 import OFV.Lemmas.Walk4
 import OFV.Lemmas.Walk5
 import OFV.Lemmas.Walk6
+import OFV.Lemmas.Walk7
+import OFV.Props.C03c
 import OFV.Lemmas.LayNat
 import OFV.Lemmas.FrameMsg
 import OFV.Lemmas.RepMsg
 namespace OFV.Props.C02c
-open OFV OFV.Go OFV.Model OFV.Spec OFV.Elem OFV.Walk2 OFV.Walk3 OFV.Walk4 OFV.Walk5 OFV.Walk6 OFV.Props.C02b
+open OFV OFV.Go OFV.Model OFV.Spec OFV.Elem OFV.Walk2 OFV.Walk3 OFV.Walk4 OFV.Walk5 OFV.Walk6 OFV.Walk7 OFV.Props.C02b OFV.Model.Hist
 
 /-- a list of encodings whose sizes are the reported 16-bit sizes, fitting 16 bits in total -/
 theorem flat_sum (ls : List UInt16) (bss : List Bytes) (h : bss.map List.length = ls.map UInt16.toNat)
@@ -1556,5 +1558,77 @@ example : ∃ m, exFields.foldlM (fun acc f => Match.addField acc f) Match.new =
           · exact ⟨actionWF_output 7, known_output 7⟩
           · exact ⟨actionWF_group 3, known_group 3⟩) h
   exact ⟨_, hwalk⟩
+
+/-! ### NAT actions built by any setter history -/
+
+theorem natRp_lt (ops : List NatOp) : ∀ rp, rp < 64 → natRpFrom rp ops < 64 := by
+  induction ops with
+  | nil => intro rp h; exact h
+  | cons op ops ih =>
+    intro rp h
+    simp only [natRpFrom, List.foldl_cons]
+    apply ih
+    cases op with
+    | range i x =>
+      simp only [natRpStep]
+      have hb : natBit i < 2 ^ 6 := by revert i; decide
+      exact Nat.or_lt_two_pow (n := 6) h hb
+    | _ => exact h
+
+theorem unpaddedLen_natSz : ∀ rp : Fin 64, (NXActionCTNAT.unpaddedLen rp.val).toNat = natSz rp.val := by decide
+
+/-- NAT ACTIONS BUILT BY ANY SETTER HISTORY are accepted by the real walker: for every sequence of calls (flag setters,
+    the six range setters with proper arguments, in any order, with repetitions, Len() interleaved) starting from
+    NewNXActionCTNAT(), the encoding has the Nicira NAT codes, zero pad bytes, a presence word below 64, exactly the
+    size the presence bits demand rounded up to 8, and a zero tail -/
+theorem nxCTNAT_accept (ops : List NatOp) (hok : ∀ op ∈ ops, NatArgOK op) (w : V)
+    (h : runOps natApply NXActionCTNAT.new ops = .ok w) (bs : Bytes) (w' : V) (hm : NXActionCTNAT.marshalM w = .ok (bs, w')) :
+    Accepted bs := by
+  obtain ⟨h1, fl', rp', a, b, c, d, e, f, hw, hp⟩ := nat_present_from_any ops _ _ 0 0 [] [] [] [] .nil .nil w h hok natPresent_new
+  obtain ⟨ln, fl, a2, b2, c2, d2, e2, f2, hw2, _, _, _, hlen⟩ := C03c.nat_history_length ops w h
+  obtain ⟨hl1, hl2, hl3⟩ := hlen bs w' hm
+  have hnx : nxhdr w = some (Gen.openflow13.ActionType_Experimenter, ln, Gen.openflow13.NxExperimenterID,
+      (n16 Gen.openflow13.NXAST_NAT).toNat) := by rw [hw2]; rfl
+  obtain ⟨_, hal, hnxw⟩ := nxCTNAT_wire w bs w' _ _ _ _ hnx hm
+  rw [hw] at hw2
+  simp only [natObj, V.obj.injEq, true_and, List.cons.injEq, V.num.injEq, and_true] at hw2
+  obtain ⟨_, _, erp, _⟩ := hw2
+  subst hw
+  have hrp : rp' < 64 := by rw [erp]; exact natRp_lt ops 0 (by decide)
+  have hopt := natOptBits_length rp' a b c d e f hp
+  rw [← erp] at hl2 hl3
+  have hsz : (NXActionCTNAT.unpaddedLen rp').toNat = natSz rp' := unpaddedLen_natSz ⟨rp', hrp⟩
+  rw [hsz] at hl2 hl3 hopt
+  obtain ⟨hb, hhb, hbs⟩ := C03b.nxCTNAT_presence _ _ _ _ _ _ _ _ _ _ bs w' hm hp (by omega)
+  have h16 : 16 ≤ bs.length := by unfold natSz at hl2; omega
+  have hN := hnxw (by omega)
+  generalize hO : natOptBits rp' a b c d e f = O at hbs hopt
+  have hrpn : (n16 rp').toNat = rp' := by rw [n16_toNat']; omega
+  refine accepted_of _ _ (accept_nat bs rp' h16 hal hN.code_ok hN.len_ok hN.vendor_ok hN.sub_ok ?_ ?_ hrp ?_ ?_)
+  · rw [hbs]
+    have : ∀ (p z r : Bytes), p.length = 10 → z.length = 2 → slice (p ++ z ++ r) 10 2 = z := by
+      intro p z r hp' hz
+      unfold slice
+      rw [List.append_assoc, ← hp', List.drop_left, ← hz, List.take_left]
+    simp only [List.append_assoc]
+    have := this hb (zeros 2) (be16 (n16 fl') ++ (be16 (n16 rp') ++ (O ++ zeros (bs.length - (16 + O.length))))) hhb (by simp [zeros])
+    simp only [List.append_assoc] at this
+    rw [this]; exact (allZero_iff _).mpr (allZero_zeros 2)
+  · rw [u16At_eq_beAt _ _ (by omega)]
+    conv => lhs; rw [hbs]
+    have hr := beAt_append_right (hb ++ zeros 2 ++ be16 (n16 fl')) (be16 (n16 rp') ++ (O ++ zeros (bs.length - (16 + O.length)))) 0 2
+    simp only [List.length_append, hhb, zeros_length, be16_length, Nat.add_zero, List.append_assoc] at hr ⊢
+    rw [hr, beAt_be16, hrpn]
+  · unfold Spec.round8; omega
+  · have hd : bs.drop (natSz rp') = zeros (bs.length - (16 + O.length)) := by
+      conv => lhs; rw [hbs]
+      have : (hb ++ zeros 2 ++ be16 (n16 fl') ++ be16 (n16 rp') ++ O).length = natSz rp' := by
+        simp [hhb, zeros_length]; omega
+      rw [← this, List.drop_left]
+    unfold slice
+    rw [hd]
+    apply (allZero_iff _).mpr
+    intro x hx
+    exact allZero_zeros _ x (List.mem_of_mem_take hx)
 
 end OFV.Props.C02c
